@@ -12,6 +12,8 @@
 //!                                  `FAIL <class> :: <detail>` lines and a final `STATS {json}`
 //! All randomness comes from one SplitMix64 state.
 
+pub mod dev;
+
 use std::io::{self, BufRead, Write};
 
 #[derive(Clone)]
